@@ -19,9 +19,7 @@ TraceFile == IOEnv.TRACE_FILE
 Trace == ndJsonDeserialize(TraceFile)
 
 TrFieldBytes == Trace[1].names
-TrNormOf ==                     \* LET so that the trace is read once while this is built
-    LET t == Trace[2].table IN
-    [p \in UNION {{<<f, n>> : n \in 0..(Len(t[f]) - 1)} : f \in DOMAIN t} |-> t[p[1]][p[2] + 1]]
+TrNormTable == Trace[2].table
 TrBatchOf(id) == Trace[id + 3].docs
 
 FirstEvent == 3 + Trace[1].nbatch      \* header: def_names, def_norm, def_batch * nbatch
@@ -52,6 +50,8 @@ Step(e) ==
     \/ e.ev = "dv_open"     /\ ADvOpen(e)
     \/ e.ev = "dv_visit"    /\ ADvVisit(e)
     \/ e.ev = "match"       /\ AMatch(e)
+    \/ e.ev = "dit_open"    /\ ADitOpen(e)
+    \/ e.ev = "dit_next"    /\ ADitNext(e)
     \/ e.ev = "stats"       /\ AStats(e)
     \/ e.ev = "stats_merge" /\ AStatsMerge(e)
     \/ e.ev = "def_bm"      /\ ADefBm(e)
